@@ -623,23 +623,11 @@ impl<T> Matrix<T> {
      */
     #[track_caller]
     pub fn retain_mut(&mut self, slice: Slice2D) {
-        let mut r = 0;
-        let mut c = 0;
-        // drop the values rejected by the slice
-        let columns = self.columns();
-        self.data.retain(|_| {
-            let keep = slice.accepts(r, c);
-            if c < (columns - 1) {
-                c += 1;
-            } else {
-                r += 1;
-                c = 0;
-            }
-            keep
-        });
         // work out the resulting size of this matrix by using the non
         // public fields of the Slice2D to handle each row and column
-        // seperately.
+        // seperately. This is done before any value is dropped so that
+        // a slice which would leave no rows or columns panics without
+        // having modified this matrix.
         let remaining_rows = {
             let mut accepted = 0;
             for i in 0..self.rows() {
@@ -666,10 +654,20 @@ impl<T> Matrix<T> {
             remaining_columns > 0,
             "Provided slice must leave at least 1 column in the retained matrix"
         );
-        assert!(
-            !self.data.is_empty(),
-            "Provided slice must leave at least 1 row and 1 column in the retained matrix"
-        );
+        let mut r = 0;
+        let mut c = 0;
+        // drop the values rejected by the slice
+        let columns = self.columns();
+        self.data.retain(|_| {
+            let keep = slice.accepts(r, c);
+            if c < (columns - 1) {
+                c += 1;
+            } else {
+                r += 1;
+                c = 0;
+            }
+            keep
+        });
         self.rows = remaining_rows;
         self.columns = remaining_columns
         // By construction jagged slices should be impossible, if this
